@@ -318,14 +318,10 @@ def builtin (f : String) (args : List GV) (h : Heap) : Option (R (List GV × Hea
     | some o => some (.ok ([], heapSet h a { o with kvs := mdelete k o.kvs }))
     | none => some (.error (.stuck "delete: dangling"))
   | "delete", [.nil, _] => some (.ok ([], h))
-  | _, _ =>
-    if f.startsWith "makemap:" then
-      some (.ok ([.ref h.length], h ++ [{ ty := (f.drop 8).toString, kvs := [] }]))
-    else if f.startsWith "makeslice:" then
-      match args with
-      | .int 0 :: _ => some (.ok ([.slice []], h))
-      | _ => some (.error (.stuck "make: non-zero length"))
-    else none
+  | "makemap", [.str ty] => some (.ok ([.ref h.length], h ++ [{ ty := ty, kvs := [] }]))
+  | "makeslice", [.str _, .int 0] => some (.ok ([.slice []], h))
+  | "makeslice", _ => some (.error (.stuck "make: non-zero length"))
+  | _, _ => none
 
 def errorText (h : Heap) : GV → String
   | .err m => m
